@@ -244,16 +244,16 @@ Qed.
 Lemma finalize_spec c s wr ok r s' :
   finalize c s wr ok = (r, s') ->
   same s s' /\
-  (forall l, r = Ok l -> l_abs l = wr_abs wr /\ s_tbr s' <= wr_abs wr) /\
+  (forall l, r = Ok l -> l_abs l = wr_abs wr /\ s_tbr s' <= wr_abs wr /\ ok = true) /\
   (forall e, r = Err e -> e <> cOK /\ e <> cNotFound).
 Proof.
   unfold finalize. pose proof (same_unpin c s (wr_uid wr)) as S.
-  destruct (negb ok).
-  - intros H; inversion H; subst. split; [exact S|]. split; intros; [discriminate|]. inversion H0; split; discriminate.
+  destruct ok; cbn [negb].
   - destruct (wr_abs wr <? s_tbr (unpin c s (wr_uid wr))) eqn:E.
     + intros H; inversion H; subst. split; [exact S|]. split; intros; [discriminate|]. inversion H0; split; discriminate.
     + intros H; inversion H; subst. split; [exact S|]. split; [|intros; discriminate].
-      intros l H'; inversion H'; subst; cbn [l_abs]. split; [reflexivity|lia].
+      intros l H'; inversion H'; subst; cbn [l_abs]. split; [reflexivity|split; [lia|reflexivity]].
+  - intros H; inversion H; subst. split; [exact S|]. split; intros; [discriminate|]. inversion H0; split; discriminate.
 Qed.
 
 Lemma fin_check_spec s wr :
